@@ -259,6 +259,9 @@ func (g *Graph) MustPass(from int, to []int, via func(int) bool) (bool, []int) {
 
 // Dominates reports whether every path from entry to b passes through a (a==b counts).
 func (g *Graph) Dominates(a, b int) bool {
+	if a < 0 || b < 0 {
+		return false // a node that is not a vertex of this graph (a compound statement, a node of another function)
+	}
 	if a == b {
 		return true
 	}
